@@ -44,6 +44,9 @@ pub enum Px {
     Plain(Payload),
     Packed(Payload),
     Repeat { unit: Payload, dist: u32, fill: Content, seed: u64, tail: u8 },
+    /// `kib` KiB (100..1500) of very redundant content: ratios of several thousand to one and
+    /// inputs beyond the 64 KiB / 128 KiB / 1 MiB switches inside the codecs
+    Big { content: Content, kib: u16, seed: u64 },
 }
 
 #[derive(Clone, Copy, Debug, PartialEq, Eq, Serialize, Deserialize)]
@@ -180,6 +183,7 @@ impl Px {
                     _ => b,
                 }
             }
+            Px::Big { content, kib, seed } => expand(*content, *kib as usize * 1024 + (*seed % 7) as usize, *seed),
             Px::Repeat { unit, dist, fill, seed, tail } => {
                 let u = unit.bytes();
                 let mut out = u.clone();
@@ -200,6 +204,7 @@ impl Px {
         match self {
             Px::Plain(p) => p.class(),
             Px::Packed(_) => "Packed".into(),
+            Px::Big { .. } => "Big".into(),
             Px::Repeat { dist, .. } => {
                 if *dist >= 60_000 {
                     "Repeat@64K".into()
@@ -353,7 +358,9 @@ fn px(max: usize, big_ok: bool) -> BoxedStrategy<Px> {
     let plain = payload(size_around(BLOCKS, max), 48).prop_map(Px::Plain);
     let packed = payload(size_around(BLOCKS, max), 48).prop_map(Px::Packed);
     if big_ok {
-        prop_oneof![24 => plain, 4 => packed, 4 => small_repeat, 1 => big_repeat].boxed()
+        let big = (proptest::sample::select(vec![Content::Constant, Content::Periodic, Content::Runs, Content::TwoSymbol, Content::Text]), prop_oneof![Just(128u16), Just(1024u16), 100u16..1500], any::<u64>())
+            .prop_map(|(content, kib, seed)| Px::Big { content, kib, seed });
+        prop_oneof![24 => plain, 4 => packed, 4 => small_repeat, 1 => big_repeat, 1 => big].boxed()
     } else {
         prop_oneof![24 => plain, 4 => packed, 4 => small_repeat].boxed()
     }
